@@ -102,6 +102,29 @@ var scenarios = []scenario{
 		x.do(rSid("CLOSE", b.Fh, b.T, b.Q, 5))
 		_ = ca
 	}},
+	{"lock-same-seqid-other-stateid", func(x *sc) {
+		c := x.client(1, 1)
+		a := x.openc(c, "o1", 1, "a", 3)
+		b, _ := x.e.do(rOpen(c, "o1", 3, "b", 3, "UNCHECKED"))
+		la := x.do(rLockNew(a.Fh, a.T, a.Q, 4, c, "l1", 1, "W", 0, 1))
+		lb := x.do(rLockNew(b.Fh, b.T, b.Q, 5, c, "l1", 2, "W", 0, 1))
+		r := rLock(a.Fh, la.T, la.Q, 3, "W", 2, 3)
+		la2 := x.do(r)
+		x.do(r)                                   // true replay
+		x.do(rLock(b.Fh, lb.T, lb.Q, 3, "W", 2, 3)) // same lock seqid, the other file's lock state id
+		x.do(rLocku(a.Fh, la2.T, la2.Q, 3, 2, 3))   // same lock seqid, other operation
+		x.do(rLock(a.Fh, la.T, la.Q+1, 3, "W", 2, 3))
+		u := rLocku(b.Fh, lb.T, lb.Q, 4, 0, 1)
+		ub := x.do(u)
+		x.do(u)
+		x.do(rLocku(a.Fh, la2.T, la2.Q, 4, 0, 1)) // same seqid as the LOCKU on b
+		x.do(rLock(b.Fh, ub.T, ub.Q, 4, "W", 0, 1))
+		// OPEN_CONFIRM and OPEN_DOWNGRADE with the seqid of the other file's operation
+		d := rDowngrade(a.Fh, a.T, a.Q, 6, 1)
+		x.do(d)
+		x.do(rDowngrade(b.Fh, b.T, b.Q, 6, 1))
+		x.do(d)
+	}},
 	{"misordered-seqids", func(x *sc) {
 		c := x.client(1, 1)
 		o := x.openc(c, "o1", 1, "a", 3)
